@@ -159,15 +159,21 @@ class ProgGen(object):
         newt = val if self.abs else cur + val
         return axis + respell(self.r, s, self.hostile), newt
 
-    def eword(self, target):
+    def erel(self):
+        """Relative extrusion: G91 while the G90-influences-extruder setting is on."""
+        return bool(self.settings.get("g90e")) and not self.abs
+
+    def eword(self, target, absolute=False):
         """E word for the file coordinate `target` (mm), snapped to the 0.0254 mm grid: exact decimal in mm and in inches,
-        so that retract/recover cycles have equal length whatever the units are."""
+        so that retract/recover cycles have equal length whatever the units are.  `absolute`: G92 E words are absolute
+        coordinates even in relative extrusion mode."""
+        base = self.e if (self.erel() and not absolute) else 0.0
         if not self.f.get("egrid", True):
-            s = fmt(target / self.unit, 9)
-            return "E" + respell(self.r, s, self.hostile), float(s) * self.unit
-        k = int(round(target / EGRID))
+            s = fmt((target - base) / self.unit, 9)
+            return "E" + respell(self.r, s, self.hostile), base + float(s) * self.unit
+        k = int(round((target - base) / EGRID))
         s = fmt(k * EGRID, 4) if self.unit == 1.0 else fmt(k * 0.001, 3)
-        return "E" + respell(self.r, s, self.hostile), float(s) * self.unit
+        return "E" + respell(self.r, s, self.hostile), base + float(s) * self.unit
 
     def move(self, x=None, y=None, z=None, de=0.0, g="G1", feed=None):
         words = []
@@ -198,7 +204,7 @@ class ProgGen(object):
             self.fwret = True
         else:
             amt = self.f.get("ramt", 3.048)
-            self.pre = self.eword(self.e)
+            self.pre = (self.eword(self.e)[0], self.e, self.erel(), self.unit)
             w, self.e = self.eword(self.e - amt)
             self.retracted = amt
             self.emit("G1 %s F2400" % w)
@@ -209,7 +215,10 @@ class ProgGen(object):
             self.emit("G11" + (" " + p if p else ""))
             self.fwret = False
         else:
-            w, self.e = self.pre
+            if self.erel() or self.pre[2] or self.pre[3] != self.unit:
+                w, self.e = self.eword(self.pre[1])       # relative extrusion (now or then): the word is an offset
+            else:
+                w, self.e = self.pre[0], self.pre[1]      # the exact word the file had before the retraction
             self.retracted = 0.0
             self.emit("G1 %s F2400" % w)
 
@@ -261,13 +270,14 @@ class ProgGen(object):
             if self.retracted and not f.get("g92e_retracted", False):
                 return self.step(depth + 1) if depth < 5 else None
             v = r.choice([0.0, 0.0, 5.08, 101.6, 2.54, self.f.get("ramt", 3.048)])     # the last one: next retraction ends at exactly E0
-            w, newe = self.eword(v)
+            w, newe = self.eword(v, absolute=True)
             if self.retracted:
                 # keep the cycle matched: the recover word is shifted by the same amount
-                saved = self.r, self.hostile
+                saved = self.hostile
                 self.hostile = False
-                self.pre = self.eword(self.pre[1] + (newe - self.e))
-                self.hostile = saved[1]
+                tgt = self.pre[1] + (newe - self.e)
+                self.pre = (self.eword(tgt)[0], tgt, True, self.unit)     # force re-encoding of the recover word
+                self.hostile = saved
             self.e = newe
             self.emit("G92 " + w)
         elif k < 0.70 and f.get("rel", False):
@@ -293,7 +303,7 @@ class ProgGen(object):
         elif k < 0.95 and f.get("retmove", False) and not self.is_retracted():
             # Slic3r style: retraction combined with a move (wipe)
             x, y = self.pt((r.random() < pin) if self.regs else None)
-            self.pre = self.eword(self.e)
+            self.pre = (self.eword(self.e)[0], self.e, self.erel(), self.unit)
             self.retracted = 1.016
             self.move(x=x, y=y, de=-1.016)
         elif k < 0.96 and f.get("g28mid", False) and not self.believed_open() and not self.is_retracted():
@@ -355,7 +365,7 @@ class ProgGen(object):
             self.tags.add("tiny-extrusion")
             if self.f.get("egrid", True):
                 # bring the file's E back onto the grid so that later cycles stay matched
-                w, self.e = self.eword(self.e)
+                w, self.e = self.eword(self.e, absolute=True)
                 self.emit("G92 " + w)
             elif r.random() < 0.5 and not self.is_retracted():
                 # E coordinate such that the next retraction ends at a tiny value
